@@ -113,7 +113,7 @@ func VH_C17_v1(h *vrt.H) {
 // for every standard kind on the configured network; pay-to-pubkey, other-network and
 // undecodable strings are refused.
 func VH_C17_withdraw_address(h *vrt.H) {
-	kind := h.Choose("kind", 0, 6)
+	kind := h.Choose("kind", 0, 8)
 	forNet := h.Choose("forNet", 0, 1) == 1
 	n := 20
 	if kind == vrt.AddrP2WSH || kind == vrt.AddrP2TR {
@@ -123,7 +123,7 @@ func VH_C17_withdraw_address(h *vrt.H) {
 	s := h.BtcAddr(kind, prog, forNet)
 	script, err := DecodeBtcAddress(s, vhNet())
 	h.NoteBool("ok", err == nil)
-	if kind == vrt.AddrP2PK || kind == vrt.AddrGarbage || !forNet {
+	if kind == vrt.AddrP2PK || kind == vrt.AddrP2PKUncompressed || kind == vrt.AddrP2PKHybrid || kind == vrt.AddrGarbage || !forNet {
 		h.Assert(err != nil, "legacy-p2pk-foreign-and-garbage-addresses-refused")
 		h.Reach("refused")
 		return
